@@ -95,7 +95,9 @@ theorem w0_pushToBlock2 (P : Params) (st : St) (p : Pkt) {st' : St} {b : Bool}
       · split at h
         · simp at h
         · simp at h; rw [← h.1]; split
-          · exact w0_complete _
+          · split
+            · exact w0_complete _
+            · exact w0_error _ _
           · exact W0.refl _
       · split at h
         · simp at h; rw [← h.1]; exact W0.refl _
@@ -271,9 +273,9 @@ theorem push_silent (P : Params) (st : St) (p : Pkt) {st' : St} (hi : Inv st) (h
   ⟨((push_fdtId P st p hi h).2 hf).1, (push_fdtId P st p hi h).1.trans hf⟩
 
 /-- a failed `attach_fdt` changes nothing at all; it succeeds only for a listed TOI on an unattached object -/
-theorem attach_false_silent (P : Params) (st : St) (id : Nat) (file : Option FileEntry) {st' : St}
-    (h : attachFdt P st id file = .ok (st', false)) : st' = st := by
-  unfold attachFdt at h
+theorem attach_false_silentOld (P : Params) (st : St) (id : Nat) (file : Option FileEntry) {st' : St}
+    (h : attachFdtOld P st id file = .ok (st', false)) : st' = st := by
+  unfold attachFdtOld attachCore at h
   split at h
   · simp at h; exact h.symm
   · split at h
@@ -291,6 +293,36 @@ theorem attach_false_silent (P : Params) (st : St) (id : Nat) (file : Option Fil
               · split at h
                 · simp at h
                 · simp at h
+
+
+/-- the old function never answers `false` once it has a File entry and an unattached object -/
+theorem attachCore_true (P : Params) (st : St) (id : Nat) (f : FileEntry) {st' : St} {b : Bool}
+    (h : attachCore P st id f = .ok (st', b)) : b = true := by
+  unfold attachCore at h
+  split at h
+  · cases h
+  · split at h
+    · cases h
+    · split at h
+      · cases h
+      · split at h
+        · cases h
+        · split at h
+          · cases h
+          · split at h
+            · cases h
+            · simp at h; exact h.2
+
+theorem attach_false_silent (P : Params) (st : St) (id : Nat) (file : Option FileEntry) {st' : St}
+    (h : attachFdt P st id file = .ok (st', false)) : st' = st := by
+  rcases attachFdt_cases h with h0 | ⟨f, rfl, _, hfd, h1⟩
+  · exact attach_false_silentOld P st id file h0
+  · exfalso
+    unfold attachFdtOld at h1
+    have : (resetOti st).fdtId.isSome = false := by simp [resetOti, hfd]
+    rw [if_neg (by simp [this])] at h1
+    have := attachCore_true P _ id f h1
+    cases this
 
 theorem attach_true_listed (P : Params) (st : St) (id : Nat) (file : Option FileEntry) {st' : St}
     (h : attachFdt P st id file = .ok (st', true)) : file.isSome = true ∧ st.fdtId = none := by
@@ -393,7 +425,9 @@ theorem gr_pushToBlock2 (P : Params) (st : St) (p : Pkt) {st' : St} {b : Bool}
       · split at h
         · simp at h
         · simp at h; rw [← h.1]; split
-          · exact gr_complete _
+          · split
+            · exact gr_complete _
+            · exact gr_error _ _
           · exact Gr.refl _
       · split at h
         · simp at h; rw [← h.1]; exact Gr.refl _
@@ -531,10 +565,10 @@ theorem push_grows (P : Params) (st : St) (p : Pkt) {st' : St} (h : push P st p 
               · rename_i heq; simp at h; rw [← h]; exact (r3.trans (gr_pushToBlock _ _ _ heq)).trans (gr_error _ _)
 
 /-- **(d), (e) for `attach_fdt`** -/
-theorem attach_grows (P : Params) (st : St) (id : Nat) (file : Option FileEntry) {st' : St} {b : Bool}
-    (h : attachFdt P st id file = .ok (st', b)) : st'.toi = st.toi ∧ ∃ l, st'.out = l ++ st.out := by
+theorem attach_growsOld (P : Params) (st : St) (id : Nat) (file : Option FileEntry) {st' : St} {b : Bool}
+    (h : attachFdtOld P st id file = .ok (st', b)) : st'.toi = st.toi ∧ ∃ l, st'.out = l ++ st.out := by
   suffices Gr st st' from ⟨this.toi, this.grow⟩
-  unfold attachFdt at h
+  unfold attachFdtOld attachCore at h
   split at h
   · simp at h; rw [← h.1]; exact Gr.refl _
   · split at h
@@ -573,6 +607,13 @@ theorem attach_grows (P : Params) (st : St) (id : Nat) (file : Option FileEntry)
                 · rename_i st6 h6
                   simp at h; rw [← h.1]
                   exact (r5.trans r6).trans (gr_pushFromCache _ _ h6)
+
+
+theorem attach_grows (P : Params) (st : St) (id : Nat) (file : Option FileEntry) {st' : St} {b : Bool}
+    (h : attachFdt P st id file = .ok (st', b)) : st'.toi = st.toi ∧ ∃ l, st'.out = l ++ st.out := by
+  rcases attachFdt_cases h with h0 | ⟨f, rfl, _, _, h1⟩
+  · exact attach_growsOld P st id file h0
+  · exact attach_growsOld P (resetOti st) id _ h1
 
 theorem drop_grows (st : St) : (drop st).toi = st.toi ∧ ∃ l, (drop st).out = l ++ st.out := by
   unfold drop
@@ -659,7 +700,9 @@ theorem kr_pushToBlock2 (P : Params) (st : St) (p : Pkt) {st' : St} {b : Bool}
         · simp at h; obtain ⟨rfl, rfl⟩ := h
           refine ⟨?_, fun hf => by cases hf⟩
           split
-          · exact kr_complete _
+          · split
+            · exact kr_complete _
+            · exact kr_error _ _ hn
           · exact .inl hn
       · split at h
         · simp at h; rw [← h.1]; exact ⟨.inl hn, fun _ => hn⟩
@@ -832,9 +875,9 @@ theorem push_complete_state (P : Params) (st : St) (p : Pkt) {st' : St}
   | inl x => exact absurd x hc
   | inr x => exact x
 
-theorem kr_attachFdt (P : Params) (st : St) (id : Nat) (file : Option FileEntry) {st' : St} {b : Bool}
-    (hi : Inv st) (hj : JInv P st) (hk : KR st) (h : attachFdt P st id file = .ok (st', b)) : KR st' := by
-  unfold attachFdt at h
+theorem kr_attachFdtOld (P : Params) (st : St) (id : Nat) (file : Option FileEntry) {st' : St} {b : Bool}
+    (hi : Inv st) (hj : JInv P st) (hk : KR st) (h : attachFdtOld P st id file = .ok (st', b)) : KR st' := by
+  unfold attachFdtOld attachCore at h
   split at h
   · simp at h; rw [← h.1]; exact hk
   · rename_i hfd
@@ -914,6 +957,13 @@ theorem kr_attachFdt (P : Params) (st : St) (id : Nat) (file : Option FileEntry)
                 · rename_i st6 h6
                   simp at h; rw [← h.1]
                   exact kr_pushFromCache _ _ i6 j6 k6 h6
+
+
+theorem kr_attachFdt (P : Params) (st : St) (id : Nat) (file : Option FileEntry) {st' : St} {b : Bool}
+    (hi : Inv st) (hj : JInv P st) (hk : KR st) (h : attachFdt P st id file = .ok (st', b)) : KR st' := by
+  rcases attachFdt_cases h with h0 | ⟨f, rfl, hw, _, h1⟩
+  · exact kr_attachFdtOld P st id file hi hj hk h0
+  · exact kr_attachFdtOld P (resetOti st) id _ (inv_reset hi) (jinv_reset hj hw) hk h1
 
 /-- the three object invariants, bundled for the session level -/
 structure Reach (P : Params) (st : St) : Prop where
